@@ -124,6 +124,16 @@ package multiparty
 //@ afunc EvaluationKeyGenProtocol.AggregateShares
 //@   trusted aggregation over the gadget digit matrix (nested loops over rows) is not yet under contract; nothing is assumed about its effect
 
+// mismatched shares are refused (property C14: "different Galois element, level or decomposition"): shares whose
+// power-of-two decomposition differs are not added digit by digit (finding F68).  Bounded shape (one digit).
+//@ afunc EvaluationKeyGenProtocol.AggregateShares#refusal
+//@   property C14
+//@   bounded one RNS component with one digit (the refusal precedes the loops; the shape only bounds the paths that are NOT refused)
+//@   unwind 3
+//@   case len(share1.Value) == 1 && len(share1.Value[0]) == 1 && len(share2.Value) == 1 && len(share2.Value[0]) == 1 && len(share3.Value) == 1 && len(share3.Value[0]) == 1
+//@   requires share1.BaseTwoDecomposition != share2.BaseTwoDecomposition
+//@   ensures !isnil(err)
+
 //@ afunc GaloisKeyGenProtocol.AggregateShares
 //@   property C14
 //@   ensures implies(share1.GaloisElement != share2.GaloisElement, !isnil(err))
